@@ -403,7 +403,7 @@ def row_stride(rep, prog, rule):
                         % (f.name, f.local_name(P) or "_%d" % P, fmt(e)[:80]))
             else:
                 rep.ok(rule, key, c.at, "stride %s" % fmt(e)[:60])
-    rep.floor(rule, "pointer walks in the kernels", n, 4)
+    rep.floor(rule, "pointer walks in the kernels", n, 4 if str(rep.cfg).startswith("x86") else 0)
 
 
 def _has_size_getter(e):
